@@ -81,7 +81,16 @@ fn run_big(n: u32, style: u8, stride: u16, take_every: u8, attacks: &[(u16, u16)
     let n = n as usize;
     rec.eval();
     // ---- extensions
-    let labels: Vec<String> = (0..n).map(|i| big_label(style, i)).collect();
+    let mut labels: Vec<String> = (0..n).map(|i| big_label(style, i)).collect();
+    if stride % 4 == 0 {
+        // one case in four: two identifiers of 2^16 +- 40 bytes (a single piece larger than any block buffer)
+        for i in [1usize, n / 2] {
+            if i < n {
+                labels[i] = format!("giant_{}_{}", "g".repeat(65_500 + (stride as usize % 80)), i);
+            }
+        }
+        rec.class("big-with-identifiers-of-2^16-bytes");
+    }
     let set = ArgumentSet::new_with_labels(&labels);
     let step = take_every.max(1) as usize;
     let sel: Vec<usize> = (0..n).filter(|i| i % step == 0).collect();
